@@ -712,6 +712,59 @@ def c17_facts(repo, sk, facts, notes):
     facts['c17_inv_flag_load'] = one_mo(mo_of(sk['c17_lm_cleanup_invalidated_loggers'], '_has_invalidated_loggers', 'load'), 'cleanup flag load', notes)
 # ===== C17 block end =====
 
+# ===== C13 block begin (what StringFromTime::init and the TimestampFormatter constructor reject; add-only, owned by props/c13.py) =====
+def c13_facts(repo, sk, facts, notes):
+    """the flag of the model Time/TimeModel.v (strict): init() scans the format for conversions that embed the time of
+    day but are not patched in the cached string, and the constructor looks for a second occurrence of the specifier"""
+    global MACRO_ARGS
+    inc = os.path.join(repo, 'include', 'quill', 'backend')
+    MACRO_ARGS = True
+    try:
+        docs = run_clang('#include "quill/backend/StringFromTime.h"\n', 'StringFromTime', repo)
+        sk['c13_sft_init'] = method_skeleton(docs, os.path.join(inc, 'StringFromTime.h'), 'init') or []
+        docs = run_clang('#include "quill/backend/TimestampFormatter.h"\n', 'TimestampFormatter', repo)
+        sk['c13_tf_ctor'] = method_skeleton(docs, os.path.join(inc, 'TimestampFormatter.h'), 'TimestampFormatter') or []
+    finally:
+        MACRO_ARGS = False
+    # the wording of the error messages and of the assert is not part of the skeleton
+    for k in ('c13_sft_init', 'c13_tf_ctor'):
+        sk[k] = [re.sub(r'^(\s*EXPR assert)\b.*$', r'\1', re.sub(r'QUILL_THROW\(\s*(\w+)\s*[{(].*$', r'QUILL_THROW(\1)', l)) for l in sk[k]]
+    it = sk['c13_sft_init']
+    def idx(lines, rx, start=0):
+        for i in range(start, len(lines)):
+            if re.match(rx, lines[i]): return i
+        return None
+    # ---- init(): the loop sits behind the %X test and before the rewrites of %r %R %T; its body is exactly
+    #      end = find_first_not_of(<skip set>, pos + 1); if (end == npos) break; if (<c, or skipped + time letter>) throw; pos = find('%', end + 1)
+    i_x = idx(it, r'IF _timestamp_format\.find\("%X"\) != std::string::npos$')
+    i_for = idx(it, r"FOR for \(size_t pos = _timestamp_format\.find\('%'\)$")
+    i_rw = idx(it, r'EXPR _replace_all\(_timestamp_format, "%r", ')
+    body = []
+    if i_for is not None:
+        for l in it[i_for + 1:]:
+            if not l.startswith('  '): break
+            body.append(l[2:])
+    m_skip = re.match(r'DECL size_t const end = _timestamp_format\.find_first_not_of\("([^"\\]*)", pos \+ 1\);$', body[0]) if body else None
+    m_cond = re.match(r"IF \(_timestamp_format\[end\] == '(.)'\) \|\| \(\(end != pos \+ 1\) && \(std::string\{\"([^\"\\]*)\"\}\.find\(_timestamp_format\[end\]\) != std::string::npos\)\)$", body[3]) if len(body) == 6 else None
+    src = open(os.path.join(inc, 'StringFromTime.h'), 'rb').read().decode('utf8', 'replace')
+    src_nc = re.sub(r'\s+', ' ', re.sub(r'/\*.*?\*/', ' ', re.sub(r'//[^\n]*', ' ', src), flags=re.S))
+    hdr = "for (size_t pos = _timestamp_format.find('%'); pos != std::string::npos;)" in src_nc
+    facts['c13_rejects_unpatchable'] = bool(
+        None not in (i_x, i_for, i_rw) and i_x < i_for < i_rw and hdr and m_skip and m_cond and len(body) == 6
+        and body[1] == 'IF end == std::string::npos' and body[2] == '  BREAK'
+        and body[4] == '  EXPR QUILL_THROW(QuillError)' and body[5] == "EXPR pos = _timestamp_format.find('%', end + 1)")
+    # the three character sets, as the source spells them (TieC13.v proves they are the model's)
+    sk['c13_charsets'] = [m_skip.group(1), m_cond.group(2), m_cond.group(1)] if (m_skip and m_cond) else []
+    # ---- constructor: after the three searches and before the split, a second occurrence of the found specifier throws
+    ct = sk['c13_tf_ctor']
+    i_last = idx(ct, r'IF size_t const search_qns = ')
+    i_dup = idx(ct, r'IF \(specifier_begin != std::string::npos\) && \(_time_format\.find\(specifier_name\[_additional_format_specifier\], specifier_begin \+ specifier_length\) != std::string::npos\)$')
+    i_split = idx(ct, r'IF specifier_begin == std::string::npos$')
+    facts['c13_rejects_repeated_spec'] = bool(
+        None not in (i_last, i_dup, i_split) and i_last < i_dup < i_split and ct[i_dup + 1] == '  EXPR QUILL_THROW(QuillError)'
+        and i_split == i_dup + 2)
+# ===== C13 block end =====
+
 
 def main():
     repo = REPO; out = os.path.join(os.path.dirname(os.path.abspath(__file__)), '..', 'coq', 'gen', 'SrcFacts.v')
@@ -727,6 +780,7 @@ def main():
     failc_facts(repo, sk, facts, notes)   # C08 block
     c12d_facts(repo, sk, facts, notes)   # C12d block
     c17_facts(repo, sk, facts, notes)   # C17 block
+    c13_facts(repo, sk, facts, notes)   # C13 block
     txt = emit(sk, facts, notes, os.path.normpath(out))
     if dump:
         for k in sorted(sk):
